@@ -105,7 +105,7 @@ def hand_schemas():
     ]
     S["funcs"] = [o_int("i", 5), o_func("fn"), o_func("include", "include"), o_list("str", "sl", None),
                   o_sec("sec", [o_int("x", 1), o_func("include", "include"), o_func("g")], F_MULTI)]
-    S["ptrs"] = [o_int("i", 5), o_ptr("p"), o_ptr("pl", F_LIST), o_ptr("pn", 0, False),
+    S["ptrs"] = [o_int("i", 5), o_ptr("p"), o_ptr("pl", F_LIST), o_ptr("pn", 0, False), dict(o_ptr("pd"), d="pdef"), dict(o_ptr("pdl", F_LIST), d="{x, y}"),
                  o_sec("sec", [o_ptr("q"), o_ptr("ql", F_LIST)], F_MULTI | F_TITLE)]
     S["keyval"] = [o_int("i", 5), o_sec("kv", [], F_KEYSTRVAL), o_sec("kvn", None, F_KEYSTRVAL),
                    o_sec("kvm", [o_str("known", "k")], F_KEYSTRVAL | F_MULTI | F_TITLE)]
